@@ -187,7 +187,7 @@ oracle = DESIGN.md Appendix B (transcribed from the rustdoc on the wire fields)"
     let mut rng = Rng::derive(seed, 12, 0);
 
     // ---- layout --------------------------------------------------------------------------------------
-    let n_layout = ctx.tier.pick(3_000, 200_000);
+    let n_layout = ctx.tier.pick(3_000, 3_000_000);
     for i in 0..n_layout {
         let mut h = [0u16; 60];
         let mut used = std::collections::HashSet::new();
@@ -385,7 +385,7 @@ oracle = DESIGN.md Appendix B (transcribed from the rustdoc on the wire fields)"
     }
 
     // ---- alarm_messages(): non-zero codes, message order ----------------------------------------------------
-    let n = ctx.tier.pick(5_000, 300_000);
+    let n = ctx.tier.pick(5_000, 5_000_000);
     for i in 0..n {
         let mut m = base.clone();
         for a in m.alarm_codes.iter_mut() {
